@@ -301,11 +301,24 @@ pub fn run_schedule<K: HKey>(
         let qdir = qdir.clone();
         handles.push(std::thread::spawn(move || {
             verif::install(Some(Arc::new(Handle { sched: sched.clone(), t })));
+            // a user-held IndexReadGuard, kept alive across the following calls of this thread
+            let mut held = None;
             for op in prog.iter() {
                 sched.park(t, "call");
-                let r = exec_op(&cas, stats.as_deref(), &u, op, &qdir);
+                let r = match op["op"].as_str() {
+                    Some("guard") => {
+                        held = Some(cas.read_index_state());
+                        json!({"ok": true, "val": "ok", "n": 0, "err": ""})
+                    }
+                    Some("unguard") => {
+                        held = None;
+                        json!({"ok": true, "val": "ok", "n": 0, "err": ""})
+                    }
+                    _ => exec_op(&cas, stats.as_deref(), &u, op, &qdir),
+                };
                 results.lock().unwrap()[t].push(r);
             }
+            drop(held);
             verif::install(None);
             sched.done(t);
         }));
@@ -453,6 +466,15 @@ pub fn run_conc_scenario<K: HKey>(sc: &Value, scratch: &Path, out: &mut Out) {
         out.emit(&json!({"ev": "end", "blocked": r.blocked}));
     };
     match kind {
+        "forced" => {
+            // the schedule is followed even where the lock a thread is about to take is held: the thread
+            // then really blocks (detected by time-out); used for the user-held read guard class
+            for (i, s) in ex["schedules"].as_array().cloned().unwrap_or_default().iter().enumerate() {
+                let prefix: Vec<usize> = s.as_array().unwrap().iter().map(|x| x.as_u64().unwrap() as usize - 1).collect();
+                let r = run_schedule::<K>(&cfg, &init, &plant, &progs, &prefix, &mut None, scratch, false);
+                emit(format!("f{i}"), &r, out);
+            }
+        }
         "guided" => {
             for (i, s) in ex["schedules"].as_array().cloned().unwrap_or_default().iter().enumerate() {
                 let prefix: Vec<usize> = s.as_array().unwrap().iter().map(|x| x.as_u64().unwrap() as usize - 1).collect();
